@@ -22,11 +22,13 @@ def exBoundary : Config :=
               clStop := 1, clResume := 1, dnsIdle := 6553500000000, dnsUdp := 65535 }
 example : validate false exBoundary = [] := by decide
 
+set_option maxHeartbeats 4000000 in
 /-- **validate_sound.** An accepted configuration satisfies every precondition of the
 constructors and of the per-query code (`Safe`). -/
 theorem validate_sound (c : Config) (h : validate false c = []) : Safe c := by
   simp [validate, valRatelimit, valAllow, valConn, valOpts, valKeyLen, valUpstream, valCache, valDnsdb,
-    valDns, valBackend, valGeo, valKv_eq_nil, valCheck, valWeb, valSb, valFilters, valIface, valNetwork] at h
+    valDns, valBackend, valGeo, valKv_eq_nil, valCheck, valWeb, valSb, valFilters, valIface, valNetwork,
+    valQueryLog, valFltGroups, valSrvGroups, valConnCheck, valAccess] at h
   constructor <;> first | omega | (simp_all; done) | (simp_all; omega) | grind
 
 /-- **safe_build_ok.** With safe values none of the start-up constructors panics. -/
@@ -83,6 +85,68 @@ theorem accepted_serves_partial (c : Config) (h : validate false c = []) (b : Bo
   obtain ⟨w, hw⟩ := safe_handle_partial c s b q
   exact ⟨w, by simp [run, safe_build_ok c s, hw, bind, Except.bind]⟩
 
+/-- The rate-limit count that applies to `q`. -/
+def countOf (c : Config) (q : Query) : Int := if q.is4 then c.v4Count else c.v6Count
+
+/-- **safe_handle_modes.** Full strength, no size hypothesis: with safe values a query is either
+served, or fails in exactly one of the two recorded ways — the request-counter allocation for a
+count of at least 2^45, or the pipeline semaphore for a TCP query with a count above `MaxInt`.
+In particular: never a division by zero, never an invalid prefix, never a stuck limit. -/
+theorem safe_handle_modes (c : Config) (s : Safe c) (q : Query) :
+    (∃ w, handle c q = .ok (.served w)) ∨
+    (handle c q = .error .makeslice ∧ allocLimit ≤ countOf c q) ∨
+    (handle c q = .error .makechan ∧ q.tcp = true ∧ c.tcpEnabled = true ∧ maxInt < c.tcpMax) := by
+  have h1 := s.tcp; have h2 := s.v4Len; have h3 := s.v6Len; have h4 := s.v4Count; have h5 := s.v6Count
+  have h6 := s.est
+  have e1 : ¬ (q.tcp = true ∧ c.tcpEnabled = true ∧ c.tcpMax = 0) := by omega
+  have e5 : ¬ (c.est = 0) := by omega
+  have a1 : ¬ (c.v4Len < 0 ∨ 32 < c.v4Len) := by omega
+  have a2 : ¬ (c.v4Count = 0) := by omega
+  have b1' : ¬ (c.v6Len < 0 ∨ 128 < c.v6Len) := by omega
+  have b2' : ¬ (c.v6Count = 0) := by omega
+  by_cases hm : q.tcp = true ∧ c.tcpEnabled = true ∧ c.tcpMax > maxInt
+  · refine Or.inr (Or.inr ⟨?_, hm.1, hm.2.1, hm.2.2⟩)
+    unfold handle
+    simp [hm, bind, Except.bind, pure, Except.pure, throw, throwThe, MonadExceptOf.throw]
+    omega
+  · cases hq : q.is4
+    · by_cases hs : c.v6Count + 1 > allocLimit ∧ c.v6Count + 1 ≠ uintRange
+      · refine Or.inr (Or.inl ⟨?_, ?_⟩)
+        · unfold handle
+          simp [e1, hm, hq, hs, b1', b2', bind, Except.bind, pure, Except.pure, throw, throwThe,
+            MonadExceptOf.throw]
+        · simp only [countOf, hq]; unfold allocLimit at *; simp; omega
+      · refine Or.inl ⟨q.respLen / c.est.toNat, ?_⟩
+        unfold handle
+        simp [e1, hm, hq, hs, e5, b1', b2', bind, Except.bind, pure, Except.pure]
+    · by_cases hs : c.v4Count + 1 > allocLimit ∧ c.v4Count + 1 ≠ uintRange
+      · refine Or.inr (Or.inl ⟨?_, ?_⟩)
+        · unfold handle
+          simp [e1, hm, hq, hs, a1, a2, bind, Except.bind, pure, Except.pure, throw, throwThe,
+            MonadExceptOf.throw]
+        · simp only [countOf, hq]; unfold allocLimit at *; simp; omega
+      · refine Or.inl ⟨q.respLen / c.est.toNat, ?_⟩
+        unfold handle
+        simp [e1, hm, hq, hs, e5, a1, a2, bind, Except.bind, pure, Except.pure]
+
+/-- **accepted_failure_modes.** Full strength: an accepted configuration starts, and every query
+is served unless it runs into one of the two recorded unbounded-size findings. -/
+theorem accepted_failure_modes (c : Config) (h : validate false c = []) (q : Query) :
+    (∃ w, run c q = .ok (.served w)) ∨
+    (run c q = .error .makeslice ∧ allocLimit ≤ countOf c q) ∨
+    (run c q = .error .makechan ∧ q.tcp = true ∧ c.tcpEnabled = true ∧ maxInt < c.tcpMax) := by
+  have s := validate_sound c h
+  have hr : run c q = handle c q := by simp [run, safe_build_ok c s, bind, Except.bind]
+  rw [hr]
+  exact safe_handle_modes c s q
+
+/-- All three modes occur (the statement is not vacuously a two-way split). -/
+example : run dist { is4 := false, tcp := false, respLen := 9000 } = .ok (.served 8) := by decide
+example : run { dist with v6Count := 35184372088832 } { is4 := false, tcp := false, respLen := 1 } =
+    .error .makeslice := by decide
+example : run { dist with tcpMax := 9223372036854775808 } { is4 := true, tcp := true, respLen := 1 } =
+    .error .makechan := by decide
+
 example : Bounded dist := ⟨by decide, by decide, by decide⟩
 example : run dist { is4 := true, tcp := true, respLen := 3000 } = .ok (.served 2) := by decide
 
@@ -93,21 +157,26 @@ theorem reject_names_property (c : Config) (e : Err) (h : e ∈ validate false c
   obtain ⟨f, k⟩ := e
   have h' := mem_firstOf h
   simp only [List.flatten_cons, List.flatten_nil, List.mem_append, List.not_mem_nil, or_false] at h'
-  rcases h' with h' | h' | h' | h' | h' | h' | h' | h' | h' | h' | h' | h' | h' | h'
+  rcases h' with h' | h' | h' | h' | h' | h' | h' | h' | h' | h' | h' | h' | h' | h' | h' | h' | h' | h' | h'
   · exact names_ratelimit c f k h'
   · exact names_upstream c f k h'
   · exact names_cache c f k h'
   · exact names_dnsdb c f k h'
   · exact names_dns c f k h'
   · exact names_backend c f k h'
+  · exact names_querylog c f k h'
   · exact names_geo c f k h'
   · exact names_check c f k h'
   · exact names_web c f k h'
   · exact names_sb c f k h'
   · exact names_ab c f k h'
   · exact names_filters c f k h'
+  · exact names_fltgroups c f k h'
+  · exact names_srvgroups c f k h'
+  · exact names_conncheck c f k h'
   · exact names_iface c f k h'
   · exact names_network c f k h'
+  · exact names_access c f k h'
 
 example : validate false { dist with est := 0, dbMax := 0 } = [(.rlEst, .notPositive)] := by decide
 example : validate false { dist with flCustom := 0, flMax := 0, flEde := false } =
@@ -164,6 +233,8 @@ theorem parse_range_uint (v : Int) : Ty.inRange .uint v = true ↔ 0 ≤ v ∧ v
 #print axioms safe_build_ok
 #print axioms safe_handle_partial
 #print axioms accepted_serves_partial
+#print axioms safe_handle_modes
+#print axioms accepted_failure_modes
 #print axioms reject_names_property
 #print axioms legacy_counterexample
 #print axioms legacy_keylen_counterexample
